@@ -3,15 +3,19 @@
 
   Property theorems only; every proof is a one-line appeal to Sio/Lemmas/Codec*.lean.  The
   predicates used in the statements (`NoReservedKey`, `NoBin`, `binLeaves`, `phNums`, `TopOK`,
-  `WFHdr`, `BodyOK`, `StartOK`, `WF`, `WFArgs`, `normNs`, `Packet.norm`, `Packet.wire`) are
-  defined in Sio/Lemmas/CodecDefs.lean, the model in Sio/Model/Codec.lean, the independent
-  specification codec in Sio/Model/CodecSpec.lean.
+  `WFHdr`, `BodyOK`, `StartOK`, `PayloadOK`, `WFCore`, `WF`, `WFArgs`, `normNs`, `Packet.norm`,
+  `Packet.wire`) are defined in Sio/Lemmas/CodecDefs.lean (`AsciiCls`, `DecLt10` in
+  Lemmas/CodecDigits.lean; `FltOK`, `FltLits` in Lemmas/JsonNum.lean, Lemmas/JsonRoundtrip.lean),
+  the model in Sio/Model/Codec.lean, the independent specification codec in
+  Sio/Model/CodecSpec.lean, the concrete JSON reader in Sio/Model/JsonParse.lean.
 
   Parameters (not verified here, supplied and exercised by the correspondence harness):
   * `cls`   — Python's `str.isdigit()`/`int()` table; only `AsciiCls cls` (it is right on ASCII)
               is assumed, resp. `DecLt10 cls` (digit values are below ten) for the guards;
   * `dumps`/`loads` — the JSON text layer; assumed only at the *one* value that is printed
-              (`hrt`, `hstart` below); `hstart` is proved for the Lean printer `J.dumps`.
+              (`hrt`, `hstart` below); `hstart` is proved for the Lean printer `J.dumps`, and
+              §7 instantiates both with the concrete `J.dumps`/`J.loads` and proves `hrt`
+              (`loads_dumps`), so that `roundtrip_concrete` has no JSON hypothesis left.
 -/
 import Sio.Lemmas.CodecPacket
 import Sio.Lemmas.CodecSpec
@@ -119,6 +123,11 @@ example : BodyOK asciiCls none none none "-5".toList = true ∧
     BodyOK asciiCls none (some 3) none "-5".toList = false ∧
     decodeHdr asciiCls "4-5".toList = .ok ⟨4, none, none, "-5".toList, 0⟩ :=
   ⟨by decide, by decide, by decide, rfl⟩
+
+example : WFNs (some "/chat?x=1".toList) = true ∧ WFNs (some "/a,b".toList) = false ∧
+    WFNs (some "chat".toList) = false ∧
+    nsPath (normNs (some "/chat?x=1".toList)) = "/chat".toList ∧ nsPath (normNs none) = "/".toList := by
+  decide
 
 /-- the namespace as a path: decoding yields the path without its query string -/
 theorem nsPath_normNs (nsp : Option Str) (h : WFNs nsp = true) :
@@ -233,7 +242,10 @@ theorem handback_refuse (pk : Packet) (need : Nat) (got : List J) (b : J) (h : n
     addAttachment ⟨pk, need, got⟩ b = .error .valueError :=
   addAttachment_extra b h
 
-example : ((encode J.dumps exP).2.getD []).map J.bin = [J.bin [1, 2]] ++ J.bin [3] :: [] := rfl
+example : WFCore exP = true ∧
+    ((encode J.dumps exP).2.getD []).map J.bin = [J.bin [1, 2]] ++ J.bin [3] :: [] ∧
+    ([J.bin [1, 2]] : List J).length + 1 < 3 ∧ 2 ≤ ([J.bin [1, 2], J.bin [3]] : List J).length :=
+  ⟨by decide, rfl, by decide, by decide⟩
 
 /-! ## 4. byte strings only for events and acknowledgements -/
 
